@@ -897,7 +897,15 @@ class Executor:
                 if (start in (None,0)) and (stop is None or stop==tgt.extent) and isinstance(val, FArrR):
                     if val.extent!=tgt.extent: raise PathAbort(('raise', ValueError, 'shape mismatch'))
                     state.heap[tgt.sid]=state.heap[val.sid]; return
-                raise Unsupported("FArrR slice assignment other than a[:] = b")
+                if isinstance(val, FArrR) and isinstance(start, (int, type(None))) and isinstance(stop, (int, type(None))):
+                    # a[lo:hi] = b with concrete bounds: functional update  i -> ite(lo <= i < hi, b[i - lo], a[i])
+                    lo = 0 if start is None else (start if start >= 0 else tgt.extent + start)
+                    hi = tgt.extent if stop is None else (min(stop, tgt.extent) if stop >= 0 else tgt.extent + stop)
+                    if val.extent != max(0, hi - lo): raise PathAbort(('raise', ValueError, 'shape mismatch'))
+                    i = z3.Int('slice_i')
+                    state.heap[tgt.sid] = z3.Lambda([i], z3.If(z3.And(i >= lo, i < hi), z3.Select(state.heap[val.sid], i - lo), z3.Select(state.heap[tgt.sid], i)))
+                    return
+                raise Unsupported("FArrR slice assignment with symbolic bounds or a scalar source")
             k=zi_of(index.t)
             if k is None: raise Unsupported("FArrR index is not a math-mode integer")
             state.oblig.append(("array-oob", z3.And(*state.pc, z3.Or(k<0, k>=tgt.extent))))
